@@ -42,7 +42,8 @@ manifest = {
     'engines': [{
         'name': 'sa', 'path': 'sa/',
         'serves_properties': PROPERTIES,
-        'kind_free_text': 'repository-specific static analyser: ast program model with class-hierarchy resolution, '
+        'kind_free_text': 'repository-specific static analyser: source normaliser (canonical forms, inlining of new private helpers), '
+                          'ast program model with class-hierarchy resolution, '
                           'hand-built statement CFG (dominance, must-pass-through, path enumeration, abstract '
                           'interpretation of the submit loop), effect / kind / freshness analyses, parameter-binding flow; '
                           'zero dependencies, runs under /venv/bin/python',
